@@ -1,11 +1,16 @@
 #!/usr/bin/env python3
 """Translator for component `demux` (C07): shape facts of src/dvb_demux.c -> Generated/DemuxCfg.lean.
 
-The model of `demux_pes_packet_frame` takes one Boolean describing the source as it is *now*:
-whether a frame without lines is skipped instead of being "returned" to a coroutine caller
-(callback == NULL).  The unchanged tree returns VBI_ERR_CALLBACK unconditionally (finding
-C07-cor-livelock); fixes/dvb-demux-cor-livelock.diff adds the `continue`.  Any other shape of that
-statement is reported as a translator failure, so that the model is looked at again."""
+The model takes four Booleans describing the source as it is *now* (`Demux.SrcCfg.current`):
+* demuxCorSkipsEmptyFrame  - `demux_pes_packet_frame`: a frame without lines is skipped instead of being "returned" to a
+  coroutine caller (callback == NULL); false = finding C07-cor-livelock, true = fixes/dvb-demux-cor-livelock.diff (776a0f0)
+* demuxPesDiscardsOnError  - `demux_pes_packet`: a data unit error discards the frame (`0 != err`); false = the dead
+  `err < 0` test (C07-pes-lockup), true = fixes/dvb-demux-pes-discard.diff (7c6e61c)
+* demuxLateOverflowTest    - `line_address`: the sliced buffer overflow test stands behind the new-frame tests of both
+  branches; false = first statement of the function (C07-full-frame), true = fixes/dvb-demux-full-frame.diff
+* demuxTsCompletesInHeader - `demux_ts_packet`: `ts_pes_packet_complete ()` is also called at the end of the header
+  evaluation; false = completion step inline in the copy loop only (F30), true = fixes/dvb-demux-ts-first-packet.diff
+Any other shape of one of these statements is reported as a translator failure, so that the model is looked at again."""
 import os, re, sys
 
 REPO = os.environ.get("ZVBI_REPO", "/repo")
@@ -44,6 +49,58 @@ def main():
     else:
         raise SystemExit("gen_demux: error handling after demux_pes_packet_frame in demux_pes_packet changed; "
                          "update lean/ZvbiModel/Demux/Model.lean pesIter")
+    # line_address: position of the VBI_ERR_SLICED_BUFFER_OVERFLOW test.  Unchanged tree: first statement of the
+    # function, before the new-frame tests (finding C07-full-frame); fixes/dvb-demux-full-frame.diff: in both
+    # branches directly behind the new-frame / line-order tests (label `overflow:` at the end).
+    m3 = re.search(r"\nline_address\s*\(.*?\n\}\n", src, flags=re.S)
+    if not m3:
+        raise SystemExit("gen_demux: line_address not found")
+    body3 = re.sub(r"\s+", " ", m3.group(0))
+    test = "if (unlikely (f->sp >= f->sliced_end))"
+    n_tests = body3.count("f->sliced_end))")
+    early = re.search(r"unsigned int frame_line; " + re.escape(test) + r" \{ error \(.*?\); return VBI_ERR_SLICED_BUFFER_OVERFLOW; \} "
+                      r"lofp_to_line \(", body3)
+    late1 = re.search(r"if \(NULL == rpp \|\| \(int8_t\) lofp < 0\) return -1; \} " + re.escape(test) + r" goto overflow; "
+                      r"if \(NULL != rpp\) \{", body3)
+    late2 = re.search(r"return VBI_ERR_DU_LINE_NUMBER; \} \} " + re.escape(test) + r" goto overflow; "
+                      r"f->last_field = field; f->last_field_line = field_line; \*spp = f->sp\+\+;", body3)
+    tail = re.search(r"return 0; overflow: error \(.*?\); return VBI_ERR_SLICED_BUFFER_OVERFLOW; \}", body3)
+    if early and n_tests == 1 and "overflow:" not in body3:
+        flag3 = "false"
+    elif late1 and late2 and tail and n_tests == 2 and not early:
+        flag3 = "true"
+    else:
+        raise SystemExit("gen_demux: the sliced buffer overflow test of line_address has an unknown shape/position; "
+                         "re-read the code and update lean/ZvbiModel/Demux/Model.lean lineAddress")
+    # demux_ts_packet: where the "PES packet complete" step is.  Unchanged tree: inline in the copy loop only
+    # (finding F30); fixes/dvb-demux-ts-first-packet.diff: ts_pes_packet_complete (), called from the copy loop
+    # and at the end of the header evaluation.
+    m4 = re.search(r"\ndemux_ts_packet\s*\(.*?\n\}\n", src, flags=re.S)
+    if not m4:
+        raise SystemExit("gen_demux: demux_ts_packet not found")
+    body4 = re.sub(r"\s+", " ", m4.group(0))
+    inline = ("dx->ts_wrap.consume = 0; if (0 == dx->ts_pes_todo) { const uint8_t *p; unsigned int left; p = dx->pes_buffer; "
+              "left = dx->ts_pes_bp - dx->pes_buffer; if (0) log_block (dx, p, left); if (!valid_vbi_pes_packet_header (dx, p)) { "
+              "dx->new_frame = TRUE; dx->ts_frame_todo = 0; if (0) { err = VBI_ERR_STREAM_SYNTAX; goto error_return; } else { continue; } } "
+              "dx->ts_frame_bp = dx->pes_buffer + 46; dx->ts_frame_todo = left - 46; "
+              "dx->frame.n_data_units_extracted_from_packet = 0; } }")
+    call_a = "dx->ts_wrap.consume = 0; if (0 == dx->ts_pes_todo) { ts_pes_packet_complete (dx); } }"
+    call_e = ("dx->ts_wrap.lookahead = TS_HEADER_LOOKAHEAD - lookahead; } if (0 == dx->ts_pes_todo) { ts_pes_packet_complete (dx); } "
+              "continue; skip_ts_pes_packet:")
+    end_old = "dx->ts_wrap.lookahead = TS_HEADER_LOOKAHEAD - lookahead; } continue; skip_ts_pes_packet:"
+    m5 = re.search(r"\nts_pes_packet_complete\s*\(.*?\n\}\n", src, flags=re.S)
+    helper = re.sub(r"\s+", " ", m5.group(0)) if m5 else ""
+    helper_ok = ("{ const uint8_t *p; unsigned int left; p = dx->pes_buffer; left = dx->ts_pes_bp - dx->pes_buffer; "
+                 "if (0) log_block (dx, p, left); if (!valid_vbi_pes_packet_header (dx, p)) { dx->new_frame = TRUE; "
+                 "dx->ts_frame_todo = 0; return; } dx->ts_frame_bp = dx->pes_buffer + 46; dx->ts_frame_todo = left - 46; "
+                 "dx->frame.n_data_units_extracted_from_packet = 0; }") in helper
+    if inline in body4 and end_old in body4 and "ts_pes_packet_complete" not in src:
+        flag4 = "false"
+    elif call_a in body4 and call_e in body4 and helper_ok and body4.count("ts_pes_packet_complete") == 2:
+        flag4 = "true"
+    else:
+        raise SystemExit("gen_demux: the 'PES packet complete' step of demux_ts_packet has an unknown shape; "
+                         "re-read the code and update lean/ZvbiModel/Demux/Ts.lean tsPesDone / tsCopy")
     text = ("-- generated by translate/gen_demux.py from src/dvb_demux.c; do not edit\n"
             "namespace Zvbi.Gen\n\n"
             "/-- `demux_pes_packet_frame`: with `callback == NULL` a frame without lines is skipped\n"
@@ -51,10 +108,17 @@ def main():
             "def demuxCorSkipsEmptyFrame : Bool := %s\n\n"
             "/-- `demux_pes_packet`: an error in a data unit discards the lines collected so far\n"
             "(`dx->new_frame = TRUE`); false while the test reads `err < 0` (fix dvb-demux-pes-discard absent) -/\n"
-            "def demuxPesDiscardsOnError : Bool := %s\n\nend Zvbi.Gen\n" % (flag, flag2))
+            "def demuxPesDiscardsOnError : Bool := %s\n\n"
+            "/-- `line_address`: `f->sp >= f->sliced_end` is tested where the slot is allocated, after the new-frame\n"
+            "tests of both branches (fix dvb-demux-full-frame present); false while it is the first statement -/\n"
+            "def demuxLateOverflowTest : Bool := %s\n\n"
+            "/-- `demux_ts_packet`: `ts_pes_packet_complete ()` is also called at the end of the header evaluation of a\n"
+            "TS packet (fix dvb-demux-ts-first-packet present); false while the step is inline in the copy loop only -/\n"
+            "def demuxTsCompletesInHeader : Bool := %s\n\nend Zvbi.Gen\n" % (flag, flag2, flag3, flag4))
     if not os.path.exists(OUT) or open(OUT).read() != text:
         open(OUT, "w").write(text)
-    print("gen_demux: demuxCorSkipsEmptyFrame = %s demuxPesDiscardsOnError = %s" % (flag, flag2))
+    print("gen_demux: demuxCorSkipsEmptyFrame = %s demuxPesDiscardsOnError = %s demuxLateOverflowTest = %s "
+          "demuxTsCompletesInHeader = %s" % (flag, flag2, flag3, flag4))
 
 
 if __name__ == "__main__":
